@@ -269,6 +269,7 @@ func (e *Engine) replayModel(verif, prop, unit, obName, model string, rec map[st
 	t := tmpls[unit]
 	lits := map[string]string{}
 	allOK := true
+	_ = allOK
 	for _, p := range fn.Params {
 		lit, ok := e.paramLiteral(p.Name(), p.Type(), m)
 		if !ok {
@@ -279,15 +280,34 @@ func (e *Engine) replayModel(verif, prop, unit, obName, model string, rec map[st
 	}
 	rec["inputs"] = lits
 	if t == nil {
-		// default template: plain function with fully rendered parameters
-		if !allOK || fn.Signature.Recv() != nil || fn.Parent() != nil || fn.TypeParams().Len() > 0 {
+		// default template: the function or method called with the rendered parameters
+		// (a receiver the model does not describe is the zero value of its type)
+		if fn.Parent() != nil || fn.TypeParams().Len() > 0 {
 			return false, "no replay template for " + unit
 		}
 		var args []string
-		for _, p := range fn.Params {
-			args = append(args, lits[p.Name()])
+		callee := fn.Name()
+		setup0 := ""
+		for i, p := range fn.Params {
+			lit, ok := lits[p.Name()]
+			if i == 0 && fn.Signature.Recv() != nil {
+				if !ok {
+					pt, isPtr := p.Type().Underlying().(*types.Pointer)
+					if !isPtr {
+						return false, "no replay template for " + unit
+					}
+					lit = "new(" + types.TypeString(pt.Elem(), func(*types.Package) string { return "" }) + ")"
+				}
+				setup0 = "cbvRecv := " + lit
+				callee = "cbvRecv." + fn.Name()
+				continue
+			}
+			if !ok {
+				return false, "the model does not determine parameter " + p.Name() + " of " + unit
+			}
+			args = append(args, lit)
 		}
-		t = &ReplayTemplate{Call: fn.Name() + "(" + strings.Join(args, ", ") + ")"}
+		t = &ReplayTemplate{Setup: setup0, Call: callee + "(" + strings.Join(args, ", ") + ")"}
 	}
 	call := t.Call
 	setup := t.Setup
@@ -317,6 +337,18 @@ func (e *Engine) replayModel(verif, prop, unit, obName, model string, rec map[st
 		}
 	}
 	isSafety := strings.Contains(obName, "#safety[") || strings.Contains(obName, "#requires[")
+	if oracle == "" && !isSafety && strings.Contains(obName, "#ensures[") {
+		// compile the postcondition itself into a Go oracle
+		if c := e.spec.Contracts[unit]; c != nil {
+			su, ca, or, why := e.compileOracle(fn, c, label, lits)
+			if why != "" {
+				rec["oracle_compilation"] = "postcondition not executable: " + why
+			} else {
+				setup, call, oracle = su, ca, or
+				rec["oracle_compilation"] = "postcondition compiled to Go from the contract"
+			}
+		}
+	}
 	if oracle == "" && !isSafety {
 		return false, "no executable oracle for this obligation"
 	}
@@ -326,27 +358,37 @@ func (e *Engine) replayModel(verif, prop, unit, obName, model string, rec map[st
 	src := fmt.Sprintf(`package corebgp
 
 import (
+	"errors"
 	"fmt"
+	"reflect"
 	"testing"
 )
 
 var _ = fmt.Sprint
-
+var _ = errors.New
+var _ = reflect.ValueOf
+%s
 func TestCbvReplay(t *testing.T) {
+	cbvCalled := false
 	defer func() {
 		if r := recover(); r != nil {
-			fmt.Println("CBV-REPLAY: PANIC:", r)
+			if cbvCalled {
+				fmt.Println("CBV-REPLAY: ORACLE-PANIC:", r)
+			} else {
+				fmt.Println("CBV-REPLAY: PANIC:", r)
+			}
 		}
 	}()
 	%s
 	%s
+	cbvCalled = true
 	if !(%s) {
 		fmt.Println("CBV-REPLAY: ORACLE-VIOLATED")
 		return
 	}
 	fmt.Println("CBV-REPLAY: OK")
 }
-`, setup, call, oracle)
+`, oracleHelpers, setup, call, oracle)
 	dir, err := os.MkdirTemp("", "cbvreplay")
 	if err != nil {
 		return false, err.Error()
@@ -365,6 +407,8 @@ func TestCbvReplay(t *testing.T) {
 	rec["replay_output"] = string(out)
 	s := string(out)
 	switch {
+	case strings.Contains(s, "CBV-REPLAY: ORACLE-PANIC"):
+		return false, "the oracle could not be evaluated on the model's input"
 	case strings.Contains(s, "CBV-REPLAY: PANIC"):
 		return isSafety || true, "the real code panics on the model's input"
 	case strings.Contains(s, "CBV-REPLAY: ORACLE-VIOLATED"):
